@@ -237,6 +237,10 @@ def shape_specs(res, centre, sig='sig', amp_args="fs, f_range, remove_edges=Fals
         "{r}['time_peak'][i] + {r}['time_trough'][i])))".format(r=res),
         "forall(i, 0 <= i < len({r}), same({r}['band_amp'][i], np.mean(amp_by_time({s}, {a})[{L} : {N}])))".format(
             r=res, s=sig, a=amp_args, L=L, N=N),
+        # C04: period = time_rise + time_decay; the rise-decay symmetry lies strictly in (0, 1), the peak-trough symmetry in [0, 1]
+        "forall(i, 0 <= i < len({r}), {r}['period'][i] == {r}['time_rise'][i] + {r}['time_decay'][i])".format(r=res),
+        "forall(i, 0 <= i < len({r}), 0 < {r}['time_rdsym'][i] and {r}['time_rdsym'][i] < 1)".format(r=res),
+        "forall(i, 0 <= i < len({r}), 0 <= {r}['time_ptsym'][i] and {r}['time_ptsym'][i] <= 1)".format(r=res),
     ]
     return out
 
